@@ -1,1 +1,427 @@
-/-! Property theorems for C11 (statements + proofs by reference to `Proof/`). Not built yet. -/
+import GraafVerif.Proof.OpsAL
+import GraafVerif.Proof.OpsEL
+import GraafVerif.Proof.OpsMX
+import GraafVerif.Proof.OpsW
+import GraafVerif.Proof.OpsAMUnion
+import GraafVerif.Proof.OpsPartition
+import GraafVerif.Proof.OpsCanon
+/-!
+# C11 — complement, converse, union, filter_vertices compute their set definitions
+
+Statements only; proofs by reference to `Proof/Ops*.lean`.  Models: `Model/Ops.lean` (tied to the
+code by the correspondence run `ops_*`), spec: `Spec/Ops.lean` (`DG`, `specComplement`, …).
+"The operands are unchanged" is immediate here (the models are pure functions); on the real code it
+is checked by the tie (`unchanged` flag of every `ops_*` case).
+-/
+namespace GraafVerif.C11
+open GraafVerif.Ops GraafVerif.Repr
+
+/-- `res` returned normally with a well-formed representation of the digraph `spec`. -/
+def Ok {R : Type} (WF : R → Prop) (abs : R → DG) (res : Option R) (spec : DG) : Prop :=
+  ∃ r, res = some r ∧ WF r ∧ abs r = spec
+
+/-- `g ∘ f` is the identity on the abstract digraph (`f`, `g` = the same operation, possibly run with
+different thread counts). -/
+def Involution {R : Type} (WF : R → Prop) (abs : R → DG) (f g : R → Option R) : Prop :=
+  ∀ d, WF d → ∃ r r', f d = some r ∧ g r = some r' ∧ WF r' ∧ abs r' = abs d
+
+/-- commutative, idempotent, associative at the abstract level. -/
+def UnionAlgebra {R : Type} (WF : R → Prop) (abs : R → DG) (un : R → R → Option R) : Prop :=
+  (∀ a b, WF a → WF b → ∃ r r', un a b = some r ∧ un b a = some r' ∧ abs r = abs r') ∧
+  (∀ a, WF a → ∃ r, un a a = some r ∧ abs r = abs a) ∧
+  (∀ a b c, WF a → WF b → WF c → ∃ ab bc l r, un a b = some ab ∧ un b c = some bc ∧
+    un ab c = some l ∧ un a bc = some r ∧ abs l = abs r)
+
+/-! ## The full statement, one block per representation -/
+
+/-- `AdjacencyList` — for every number `ap ≥ 1` of worker threads. -/
+def StatementAL : Prop :=
+  (∀ d, AdjList.WF d → (absAL d).Valid) ∧
+  (∀ d ap, 0 < ap → AdjList.WF d → Ok AdjList.WF absAL (complementAL d ap) (specComplement (absAL d))) ∧
+  (∀ d, AdjList.WF d → Ok AdjList.WF absAL (converseAL d) (specConverse (absAL d))) ∧
+  (∀ a b ap, 0 < ap → AdjList.WF a → AdjList.WF b →
+    Ok AdjList.WF absAL (unionAL a b ap) (specUnion (absAL a) (absAL b))) ∧
+  (∀ ap ap', 0 < ap → 0 < ap' → Involution AdjList.WF absAL (complementAL · ap) (complementAL · ap')) ∧
+  Involution AdjList.WF absAL converseAL converseAL ∧
+  (∀ ap, 0 < ap → UnionAlgebra AdjList.WF absAL (unionAL · · ap))
+
+/-- `AdjacencyMatrix` (`order² < 2^64`: the matrix fits the address space, `empty` checks it). -/
+def StatementMX : Prop :=
+  let WF := fun d : AdjMatrix => d.WF ∧ d.order * d.order < 2 ^ 64
+  (∀ d, AdjMatrix.WF d → (absMX d).Valid) ∧
+  (∀ d, WF d → Ok WF absMX (complementMX d) (specComplement (absMX d))) ∧
+  (∀ d, WF d → Ok WF absMX (converseMX d) (specConverse (absMX d))) ∧
+  (∀ a b, WF a → WF b → Ok WF absMX (unionMX a b) (specUnion (absMX a) (absMX b))) ∧
+  Involution WF absMX complementMX complementMX ∧
+  Involution WF absMX converseMX converseMX ∧
+  UnionAlgebra WF absMX unionMX
+
+/-- `EdgeList`. -/
+def StatementEL : Prop :=
+  (∀ d, EdgeList.WF d → (absEL d).Valid) ∧
+  (∀ d, EdgeList.WF d → Ok EdgeList.WF absEL (some (complementEL d)) (specComplement (absEL d))) ∧
+  (∀ d, EdgeList.WF d → Ok EdgeList.WF absEL (some (converseEL d)) (specConverse (absEL d))) ∧
+  (∀ a b, EdgeList.WF a → EdgeList.WF b → Ok EdgeList.WF absEL (unionEL a b) (specUnion (absEL a) (absEL b))) ∧
+  Involution EdgeList.WF absEL (some ∘ complementEL) (some ∘ complementEL) ∧
+  Involution EdgeList.WF absEL (some ∘ converseEL) (some ∘ converseEL) ∧
+  UnionAlgebra EdgeList.WF absEL unionEL
+
+/-- `AdjacencyListWeighted` implements `Converse` only; the weights are carried over. -/
+def StatementW : Prop :=
+  (∀ d, AdjListW.WF d → (absW d).Valid) ∧
+  (∀ d, AdjListW.WF d → ∃ r, converseW d = some r ∧ r.WF ∧ absW r = specConverseW (absW d)) ∧
+  (∀ d, AdjListW.WF d → ∃ r r', converseW d = some r ∧ converseW r = some r' ∧ r'.WF ∧ absW r' = absW d)
+
+/-- `AdjacencyMap` — arbitrary (non-contiguous) key sets; `union` for every number `ap ≥ 1` of worker
+threads.  `filter_vertices` exists for this representation only; its result may be empty
+(then it is the empty vertex set with no arcs — not a digraph, but still the set definition). -/
+def StatementAM : Prop :=
+  let WF := fun d : AdjMap => d.WF ∧ 0 < d.order
+  (∀ d, AdjMap.WF d → (absAM d).Valid) ∧
+  (∀ d, WF d → Ok WF absAM (some (complementAM d)) (specComplement (absAM d))) ∧
+  (∀ d, WF d → Ok WF absAM (some (converseAM d)) (specConverse (absAM d))) ∧
+  (∀ a b ap, 0 < ap → WF a → WF b → Ok WF absAM (unionAM a b ap) (specUnion (absAM a) (absAM b))) ∧
+  (∀ d p, AdjMap.WF d → Ok AdjMap.WF absAM (some (filterAM d p)) (specFilter p (absAM d))) ∧
+  Involution WF absAM (some ∘ complementAM) (some ∘ complementAM) ∧
+  Involution WF absAM (some ∘ converseAM) (some ∘ converseAM) ∧
+  (∀ ap, 0 < ap → UnionAlgebra WF absAM (unionAM · · ap))
+
+/-- The full property C11. -/
+def Statement : Prop := StatementAL ∧ StatementAM ∧ StatementMX ∧ StatementEL ∧ StatementW
+
+/-! ## Generic consequences of the spec-level algebra -/
+
+theorem involution_of_ok {R : Type} {WF : R → Prop} {abs : R → DG} {f g : R → Option R} {S : DG → DG}
+    (hf : ∀ d, WF d → Ok WF abs (f d) (S (abs d))) (hg : ∀ d, WF d → Ok WF abs (g d) (S (abs d)))
+    (hv : ∀ d, WF d → (abs d).Valid) (hS : ∀ x : DG, x.Valid → S (S x) = x) :
+    Involution WF abs f g := by
+  intro d hd
+  obtain ⟨r, h1, h2, h3⟩ := hf d hd
+  obtain ⟨r', h4, h5, h6⟩ := hg r h2
+  exact ⟨r, r', h1, h4, h5, by rw [h6, h3, hS _ (hv d hd)]⟩
+
+theorem unionAlgebra_of_ok {R : Type} {WF : R → Prop} {abs : R → DG} {un : R → R → Option R}
+    (h : ∀ a b, WF a → WF b → Ok WF abs (un a b) (specUnion (abs a) (abs b))) :
+    UnionAlgebra WF abs un := by
+  refine ⟨?_, ?_, ?_⟩
+  · intro a b ha hb
+    obtain ⟨r, h1, _, h3⟩ := h a b ha hb
+    obtain ⟨r', h4, _, h6⟩ := h b a hb ha
+    exact ⟨r, r', h1, h4, by rw [h3, h6, specUnion_comm]⟩
+  · intro a ha
+    obtain ⟨r, h1, _, h3⟩ := h a a ha ha
+    exact ⟨r, h1, by rw [h3, specUnion_idem]⟩
+  · intro a b c ha hb hc
+    obtain ⟨ab, h1, h2, h3⟩ := h a b ha hb
+    obtain ⟨bc, h4, h5, h6⟩ := h b c hb hc
+    obtain ⟨l, h7, _, h9⟩ := h ab c h2 hc
+    obtain ⟨r, h10, _, h12⟩ := h a bc ha h5
+    exact ⟨ab, bc, l, r, h1, h4, h7, h10, by rw [h9, h12, h3, h6, specUnion_assoc]⟩
+
+/-! ## Proved blocks -/
+
+/-- C11 for `AdjacencyList`, every thread count (P0). -/
+theorem statementAL : StatementAL := by
+  have hc : ∀ d ap, 0 < ap → AdjList.WF d →
+      Ok AdjList.WF absAL (complementAL d ap) (specComplement (absAL d)) :=
+    fun d ap hap h => complementAL_spec d ap hap h
+  have hv : ∀ d, AdjList.WF d → Ok AdjList.WF absAL (converseAL d) (specConverse (absAL d)) :=
+    fun d h => converseAL_spec d h
+  have hu : ∀ a b ap, 0 < ap → AdjList.WF a → AdjList.WF b →
+      Ok AdjList.WF absAL (unionAL a b ap) (specUnion (absAL a) (absAL b)) :=
+    fun a b ap hap ha hb => unionAL_spec a b ap hap ha hb
+  refine ⟨fun d h => absAL_valid h, hc, hv, hu, ?_, ?_, ?_⟩
+  · intro ap ap' h1 h2
+    exact involution_of_ok (fun d h => hc d ap h1 h) (fun d h => hc d ap' h2 h)
+      (fun d h => absAL_valid h) (fun x hx => specComplement_involutive hx)
+  · exact involution_of_ok hv hv (fun d h => absAL_valid h) (fun x _ => specConverse_involutive x)
+  · intro ap hap
+    exact unionAlgebra_of_ok (fun a b ha hb => hu a b ap hap ha hb)
+
+/-- C11 for `AdjacencyMatrix` (P0). -/
+theorem statementMX : StatementMX := by
+  have hord : ∀ {d r : AdjMatrix}, (∀ v, (absMX r).V v ↔ (absMX d).V v) → r.order = d.order := by
+    intro d r h1
+    have : ∀ v, v < r.order ↔ v < d.order := fun v => by rw [← absMX_V, ← absMX_V]; exact h1 v
+    have a := (this d.order).mp
+    have b := (this r.order).mpr
+    omega
+  have hc : ∀ d : AdjMatrix, d.WF ∧ d.order * d.order < 2 ^ 64 →
+      Ok (fun d : AdjMatrix => d.WF ∧ d.order * d.order < 2 ^ 64) absMX (complementMX d)
+        (specComplement (absMX d)) := by
+    intro d h
+    obtain ⟨r, h1, h2, h3⟩ := complementMX_spec d h.1 h.2
+    have : r.order = d.order := hord (d := d) (DG.ext_iff'.mp h3).1
+    exact ⟨r, h1, ⟨h2, by rw [this]; exact h.2⟩, h3⟩
+  have hv : ∀ d : AdjMatrix, d.WF ∧ d.order * d.order < 2 ^ 64 →
+      Ok (fun d : AdjMatrix => d.WF ∧ d.order * d.order < 2 ^ 64) absMX (converseMX d)
+        (specConverse (absMX d)) := by
+    intro d h
+    obtain ⟨r, h1, h2, h3⟩ := converseMX_spec d h.1 h.2
+    have : r.order = d.order := hord (d := d) (DG.ext_iff'.mp h3).1
+    exact ⟨r, h1, ⟨h2, by rw [this]; exact h.2⟩, h3⟩
+  have hu : ∀ a b : AdjMatrix, a.WF ∧ a.order * a.order < 2 ^ 64 → b.WF ∧ b.order * b.order < 2 ^ 64 →
+      Ok (fun d : AdjMatrix => d.WF ∧ d.order * d.order < 2 ^ 64) absMX (unionMX a b)
+        (specUnion (absMX a) (absMX b)) := by
+    intro a b ha hb
+    obtain ⟨r, h1, h2, h3⟩ := unionMX_spec a b ha.1 hb.1
+    refine ⟨r, h1, ⟨h2, ?_⟩, h3⟩
+    have hV := (DG.ext_iff'.mp h3).1
+    have hmax : r.order = max a.order b.order := by
+      have : ∀ v, v < r.order ↔ v < a.order ∨ v < b.order := fun v => by
+        have := hV v; simp only [specUnion] at this; rw [absMX_V, absMX_V, absMX_V] at this; exact this
+      have x := (this (max a.order b.order)).mp
+      have y := (this r.order).mpr
+      omega
+    rw [hmax]
+    rcases Nat.le_total a.order b.order with hle | hle
+    · rw [Nat.max_eq_right hle]; exact hb.2
+    · rw [Nat.max_eq_left hle]; exact ha.2
+  refine ⟨fun d h => absMX_valid h, hc, hv, hu, ?_, ?_, ?_⟩
+  · exact involution_of_ok hc hc (fun d h => absMX_valid h.1) (fun x hx => specComplement_involutive hx)
+  · exact involution_of_ok hv hv (fun d h => absMX_valid h.1) (fun x _ => specConverse_involutive x)
+  · exact unionAlgebra_of_ok hu
+
+/-- C11 for `EdgeList` (P0). -/
+theorem statementEL : StatementEL := by
+  have hc : ∀ d, EdgeList.WF d → Ok EdgeList.WF absEL (some (complementEL d)) (specComplement (absEL d)) :=
+    fun d h => ⟨_, rfl, complementEL_wf h, complementEL_abs d⟩
+  have hv : ∀ d, EdgeList.WF d → Ok EdgeList.WF absEL (some (converseEL d)) (specConverse (absEL d)) :=
+    fun d h => ⟨_, rfl, converseEL_wf h, converseEL_abs d⟩
+  have hu : ∀ a b, EdgeList.WF a → EdgeList.WF b →
+      Ok EdgeList.WF absEL (unionEL a b) (specUnion (absEL a) (absEL b)) :=
+    fun a b ha hb => unionEL_spec a b ha hb
+  refine ⟨fun d h => absEL_valid h, hc, hv, hu, ?_, ?_, ?_⟩
+  · exact involution_of_ok (f := some ∘ complementEL) (g := some ∘ complementEL) hc hc
+      (fun d h => absEL_valid h) (fun x hx => specComplement_involutive hx)
+  · exact involution_of_ok (f := some ∘ converseEL) (g := some ∘ converseEL) hv hv
+      (fun d h => absEL_valid h) (fun x _ => specConverse_involutive x)
+  · exact unionAlgebra_of_ok hu
+
+/-- C11 for `AdjacencyListWeighted::converse` (P0). -/
+theorem statementW : StatementW := by
+  refine ⟨fun d h => absW_valid h, fun d h => converseW_spec d h, ?_⟩
+  intro d h
+  obtain ⟨r, h1, h2, h3⟩ := converseW_spec d h
+  obtain ⟨r', h4, h5, h6⟩ := converseW_spec r h2
+  exact ⟨r, r', h1, h4, h5, by rw [h6, h3, specConverseW_involutive]⟩
+
+/-- C11 for `AdjacencyMap`, arbitrary key sets, every thread count (P1). -/
+theorem statementAM : StatementAM := by
+  have hpos : ∀ {d r : AdjMap}, 0 < d.order → (∀ v, (absAM d).V v → (absAM r).V v) → 0 < r.order := by
+    intro d r hd hV
+    have hne : d.rows ≠ [] := by intro e; simp [AdjMap.order, e] at hd
+    obtain ⟨e, es, he⟩ := List.exists_cons_of_ne_nil hne
+    have : (absAM r).V e.1 := hV e.1 (by rw [absAM_V, he]; simp [keysAM])
+    rw [absAM_V] at this
+    cases hr : r.rows with
+    | nil => rw [hr] at this; simp [keysAM] at this
+    | cons x xs => simp [AdjMap.order, hr]
+  have hc : ∀ d : AdjMap, d.WF ∧ 0 < d.order →
+      Ok (fun d : AdjMap => d.WF ∧ 0 < d.order) absAM (some (complementAM d)) (specComplement (absAM d)) := by
+    intro d h
+    obtain ⟨h1, h2⟩ := complementAM_spec d h.1
+    exact ⟨_, rfl, ⟨h1, hpos h.2 (fun v hv => by rw [h2]; exact hv)⟩, h2⟩
+  have hv : ∀ d : AdjMap, d.WF ∧ 0 < d.order →
+      Ok (fun d : AdjMap => d.WF ∧ 0 < d.order) absAM (some (converseAM d)) (specConverse (absAM d)) := by
+    intro d h
+    obtain ⟨h1, h2⟩ := converseAM_spec d h.1
+    exact ⟨_, rfl, ⟨h1, hpos h.2 (fun v hv => by rw [h2]; exact hv)⟩, h2⟩
+  have hu : ∀ (a b : AdjMap) (ap : Nat), 0 < ap → a.WF ∧ 0 < a.order → b.WF ∧ 0 < b.order →
+      Ok (fun d : AdjMap => d.WF ∧ 0 < d.order) absAM (unionAM a b ap) (specUnion (absAM a) (absAM b)) := by
+    intro a b ap hap ha hb
+    obtain ⟨r, h1, h2, h3⟩ := unionAM_spec a b ap hap ha.1 hb.1 (by omega)
+    exact ⟨r, h1, ⟨h2, hpos ha.2 (fun v hv => by rw [h3]; exact Or.inl hv)⟩, h3⟩
+  refine ⟨fun d h => absAM_valid h, hc, hv, hu,
+    fun d p h => ⟨_, rfl, (filterAM_spec d p h).1, (filterAM_spec d p h).2⟩, ?_, ?_, ?_⟩
+  · exact involution_of_ok (f := some ∘ complementAM) (g := some ∘ complementAM) hc hc
+      (fun d h => absAM_valid h.1) (fun x hx => specComplement_involutive hx)
+  · exact involution_of_ok (f := some ∘ converseAM) (g := some ∘ converseAM) hv hv
+      (fun d h => absAM_valid h.1) (fun x _ => specConverse_involutive x)
+  · intro ap hap
+    exact unionAlgebra_of_ok (fun a b ha hb => hu a b ap hap ha hb)
+
+/-- **C11, full statement.** -/
+theorem statement : Statement := ⟨statementAL, statementAM, statementMX, statementEL, statementW⟩
+
+/-! ## The identities as equalities of representations (what `==` decides on the real results)
+
+`WF` representations are canonical (`Proof/OpsCanon.lean`), so the abstract identities above are
+structural equalities: `complement (complement d) = d` etc. — the flags `invol`, `comm`, `idem`,
+`assoc` of the `ops_*` cases are these equalities evaluated on the real code. -/
+
+def InvolutionEq {R : Type} (WF : R → Prop) (f g : R → Option R) : Prop :=
+  ∀ d, WF d → ∃ r, f d = some r ∧ g r = some d
+
+def UnionAlgebraEq {R : Type} (WF : R → Prop) (un : R → R → Option R) : Prop :=
+  (∀ a b, WF a → WF b → ∃ r, un a b = some r ∧ un b a = some r) ∧
+  (∀ a, WF a → un a a = some a) ∧
+  (∀ a b c, WF a → WF b → WF c → ∃ ab bc r, un a b = some ab ∧ un b c = some bc ∧
+    un ab c = some r ∧ un a bc = some r)
+
+def StatementStructural : Prop :=
+  let WFM := fun d : AdjMap => d.WF ∧ 0 < d.order
+  let WFX := fun d : AdjMatrix => d.WF ∧ d.order * d.order < 2 ^ 64
+  (∀ ap ap', 0 < ap → 0 < ap' → InvolutionEq AdjList.WF (complementAL · ap) (complementAL · ap')) ∧
+  InvolutionEq AdjList.WF converseAL converseAL ∧
+  (∀ ap, 0 < ap → UnionAlgebraEq AdjList.WF (unionAL · · ap)) ∧
+  InvolutionEq WFM (some ∘ complementAM) (some ∘ complementAM) ∧
+  InvolutionEq WFM (some ∘ converseAM) (some ∘ converseAM) ∧
+  (∀ ap, 0 < ap → UnionAlgebraEq WFM (unionAM · · ap)) ∧
+  InvolutionEq WFX complementMX complementMX ∧
+  InvolutionEq WFX converseMX converseMX ∧
+  UnionAlgebraEq WFX unionMX ∧
+  InvolutionEq EdgeList.WF (some ∘ complementEL) (some ∘ complementEL) ∧
+  InvolutionEq EdgeList.WF (some ∘ converseEL) (some ∘ converseEL) ∧
+  UnionAlgebraEq EdgeList.WF unionEL ∧
+  (∀ d : AdjListW, d.WF → ∃ r, converseW d = some r ∧ converseW r = some d)
+
+theorem involutionEq_of {R : Type} {WF : R → Prop} {abs : R → DG} {f g : R → Option R}
+    (h : Involution WF abs f g) (canon : ∀ a b, WF a → WF b → abs a = abs b → a = b) :
+    InvolutionEq WF f g := by
+  intro d hd
+  obtain ⟨r, r', h1, h2, h3, h4⟩ := h d hd
+  exact ⟨r, h1, by rw [h2, canon r' d h3 hd h4]⟩
+
+theorem unionAlgebraEq_of {R : Type} {WF : R → Prop} {abs : R → DG} {un : R → R → Option R}
+    (h : ∀ a b, WF a → WF b → Ok WF abs (un a b) (specUnion (abs a) (abs b)))
+    (canon : ∀ a b, WF a → WF b → abs a = abs b → a = b) : UnionAlgebraEq WF un := by
+  refine ⟨?_, ?_, ?_⟩
+  · intro a b ha hb
+    obtain ⟨r, h1, h2, h3⟩ := h a b ha hb
+    obtain ⟨r', h4, h5, h6⟩ := h b a hb ha
+    exact ⟨r, h1, by rw [h4, canon r' r h5 h2 (by rw [h6, h3, specUnion_comm])]⟩
+  · intro a ha
+    obtain ⟨r, h1, h2, h3⟩ := h a a ha ha
+    rw [h1, canon r a h2 ha (by rw [h3, specUnion_idem])]
+  · intro a b c ha hb hc
+    obtain ⟨ab, h1, h2, h3⟩ := h a b ha hb
+    obtain ⟨bc, h4, h5, h6⟩ := h b c hb hc
+    obtain ⟨l, h7, h8, h9⟩ := h ab c h2 hc
+    obtain ⟨r, h10, h11, h12⟩ := h a bc ha h5
+    exact ⟨ab, bc, l, h1, h4, h7,
+      by rw [h10, canon r l h11 h8 (by rw [h9, h12, h3, h6, specUnion_assoc])]⟩
+
+/-- The algebraic identities hold as equalities of representations, every thread count. -/
+theorem statementStructural : StatementStructural := by
+  obtain ⟨_, _, _, huL, hcL, hvL, _⟩ := statementAL
+  obtain ⟨_, _, _, huM, _, hcM, hvM, _⟩ := statementAM
+  obtain ⟨_, _, _, huX, hcX, hvX, _⟩ := statementMX
+  obtain ⟨_, _, _, huE, hcE, hvE, _⟩ := statementEL
+  refine ⟨?_, ?_, ?_, ?_, ?_, ?_, ?_, ?_, ?_, ?_, ?_, ?_, ?_⟩
+  · exact fun ap ap' h1 h2 => involutionEq_of (hcL ap ap' h1 h2) (fun a b => canonAL)
+  · exact involutionEq_of hvL (fun a b => canonAL)
+  · exact fun ap hap => unionAlgebraEq_of (fun a b ha hb => huL a b ap hap ha hb) (fun a b => canonAL)
+  · exact involutionEq_of hcM (fun a b ha hb => canonAM ha.1 hb.1)
+  · exact involutionEq_of hvM (fun a b ha hb => canonAM ha.1 hb.1)
+  · exact fun ap hap => unionAlgebraEq_of (fun a b ha hb => huM a b ap hap ha hb)
+      (fun a b ha hb => canonAM ha.1 hb.1)
+  · exact involutionEq_of hcX (fun a b ha hb => canonMX ha.1 hb.1)
+  · exact involutionEq_of hvX (fun a b ha hb => canonMX ha.1 hb.1)
+  · exact unionAlgebraEq_of huX (fun a b ha hb => canonMX ha.1 hb.1)
+  · exact involutionEq_of hcE (fun a b => canonEL)
+  · exact involutionEq_of hvE (fun a b => canonEL)
+  · exact unionAlgebraEq_of huE (fun a b => canonEL)
+  · intro d hd
+    obtain ⟨r, r', h1, h2, h3, h4⟩ := statementW.2.2 d hd
+    exact ⟨r, h1, by rw [h2, canonW h3 hd h4]⟩
+
+/-! ## `merge_two_sorted_spec` (P0) -/
+
+theorem merge_two_sorted_spec (l r : List Nat) (hl : SortedS l) (hr : SortedS r) :
+    SortedS (mergeTwoSorted l r) ∧ (∀ x, x ∈ mergeTwoSorted l r ↔ x ∈ l ∨ x ∈ r) ∧
+    ∀ fuel, l.length + r.length ≤ fuel → mergeFuel fuel l r = mergeTwoSorted l r :=
+  ⟨sorted_mergeTwoSorted hl hr, fun _ => mem_mergeTwoSorted, fun f h => mergeFuel_adequate f l r h⟩
+
+/-! ## Thread-count independence (the C17 pieces) -/
+
+theorem complementAL_threads (d : AdjList) (ap : Nat) (hap : 0 < ap) (hn : 0 < d.order) :
+    complementAL d ap = some (complementSeqAL d) := complementAL_par_eq_seq d ap hap hn
+
+theorem unionAL_threads (a b : AdjList) (ap : Nat) (hap : 0 < ap) (hn : 0 < max a.order b.order) :
+    unionAL a b ap = some (unionSeqAL a b) := unionAL_par_eq_seq a b ap hap hn
+
+/-- … and that single-threaded definition is the plain set expression, row by row. -/
+theorem complementAL_threads_def (d : AdjList) (ap : Nat) (hap : 0 < ap) (h : d.WF) :
+    complementAL d ap = some ⟨(List.range d.order).map (fun u =>
+      (List.range d.order).filter (fun v => v != u && !(d.rows[u]?.getD []).contains v))⟩ := by
+  rw [complementAL_par_eq_seq d ap hap h.1]
+  unfold complementSeqAL
+  congr 2
+  apply List.map_congr_left
+  intro u _
+  exact complementRowAL_eq h u
+
+/-- `mapUnion_spec`: wherever the partition boundaries fall. -/
+theorem unionAM_threads (a b : AdjMap) (ap : Nat) (hap : 0 < ap) (ha : a.WF) (hb : b.WF)
+    (hn : 0 < a.rows.length + b.rows.length) : unionAM a b ap = some (unionSeqAM a b) :=
+  unionAM_par_eq_seq a b ap hap ha hb hn
+
+/-- `mapUnion_spec` (P1), in the result form: for every thread count `AdjacencyMap::union` returns a
+well-formed map whose abstract digraph is the union — arbitrary (non-contiguous) key sets. -/
+theorem mapUnion_spec (a b : AdjMap) (ap : Nat) (hap : 0 < ap) (ha : a.WF) (hb : b.WF)
+    (hn : 0 < a.order + b.order) :
+    ∃ r, unionAM a b ap = some r ∧ r.WF ∧ absAM r = specUnion (absAM a) (absAM b) :=
+  unionAM_spec a b ap hap ha hb hn
+
+/-- `findPartition_monotone` (P1): for key-sorted inputs the merge-path boundaries are
+non-decreasing in both coordinates along `r ≤ r' ≤ n1 + n2`, start at `(0,0)`, end at `(n1,n2)`,
+stay inside the inputs and sum to the diagonal. -/
+theorem findPartition_monotone (lhs rhs : List Entry) (hl : SortedK lhs) (hr : SortedK rhs)
+    (r r' : Nat) (hrr : r ≤ r') (hrn : r' ≤ lhs.length + rhs.length) :
+    findPartition 0 lhs rhs = (0, 0) ∧
+    findPartition (lhs.length + rhs.length) lhs rhs = (lhs.length, rhs.length) ∧
+    (findPartition r lhs rhs).1 ≤ (findPartition r' lhs rhs).1 ∧
+    (findPartition r lhs rhs).2 ≤ (findPartition r' lhs rhs).2 ∧
+    (findPartition r lhs rhs).1 + (findPartition r lhs rhs).2 = r ∧
+    (findPartition r lhs rhs).1 ≤ lhs.length ∧ (findPartition r lhs rhs).2 ≤ rhs.length :=
+  ⟨findPartition_zero lhs rhs, findPartition_end lhs rhs, Ops.findPartition_monotone hl hr hrr hrn⟩
+
+/-- Consequently every input entry of `AdjacencyMap::union` is consumed by exactly one worker: the
+workers' slices of `lhs` (and of `rhs`), concatenated in worker order, are `lhs` (resp. `rhs`).
+(This is also the no-double-`ptr::read` obligation of C13.) -/
+theorem unionAM_each_entry_once (lhs rhs : List Entry) (hl : SortedK lhs) (hr : SortedK rhs) (t : Nat)
+    (ht : 0 < t) :
+    (List.range t).flatMap (fun k =>
+      (lhs.drop ((boundaries lhs rhs t)[k]?.getD (0, 0)).1).take
+        (((boundaries lhs rhs t)[k + 1]?.getD (0, 0)).1 - ((boundaries lhs rhs t)[k]?.getD (0, 0)).1)) = lhs ∧
+    (List.range t).flatMap (fun k =>
+      (rhs.drop ((boundaries lhs rhs t)[k]?.getD (0, 0)).2).take
+        (((boundaries lhs rhs t)[k + 1]?.getD (0, 0)).2 - ((boundaries lhs rhs t)[k]?.getD (0, 0)).2)) = rhs :=
+  unionAM_slices_tile lhs rhs hl hr t ht
+
+/-- The order `sort_unstable_by_key` gives to equal keys is irrelevant: with any function that sorts
+by key the tail of `union` yields the same map. -/
+theorem unionAM_sort_order_irrelevant (sort : List Entry → List Entry)
+    (hmem : ∀ l e, e ∈ sort l ↔ e ∈ l) (hsorted : ∀ l, (sort l).Pairwise (fun a b => a.1 ≤ b.1))
+    (a b : AdjMap) (t : Nat) (ht : 0 < t) (ha : a.WF) (hb : b.WF) :
+    toMap (foldDup (sort (mergedAM a.rows b.rows t))) = (unionSeqAM a b).rows :=
+  unionAM_tail_any_sort sort hmem hsorted a b t ht ha hb
+
+/-! ## Non-vacuity -/
+
+example : AdjList.WF ⟨[[1], [2], [0, 1]]⟩ := by
+  refine ⟨by decide, ?_⟩
+  intro u row h
+  match u, h with
+  | 0, h => cases h; simp [SortedS, AdjList.order]
+  | 1, h => cases h; simp [SortedS, AdjList.order]
+  | 2, h => cases h; simp [SortedS, AdjList.order]
+  | n+3, h => simp at h
+example : complementAL ⟨[[1], [2], [0, 1]]⟩ 2 = some ⟨[[2], [0], []]⟩ := by decide
+example : unionAL ⟨[[1], [2], [0, 1]]⟩ ⟨[[1, 3], [], [], [0], [2]]⟩ 3 =
+    some ⟨[[1, 3], [2], [0, 1], [0], [2]]⟩ := by decide
+example : unionSeqAM ⟨[(0, [5]), (5, [])]⟩ ⟨[(0, [7]), (5, [0]), (7, [])]⟩ =
+    ⟨[(0, [5, 7]), (5, [0]), (7, [])]⟩ := by decide
+-- what three workers hand back before the final sort + fold (`sortByKey` is `List.mergeSort`,
+-- which `decide` cannot unfold; the driver evaluates the whole `unionAM`)
+example : mergedAM [(0, [5]), (5, [])] [(0, [7]), (5, [0]), (7, [])] 3 =
+    [(0, [5]), (0, [7]), (5, []), (5, [0]), (7, [])] := by decide
+-- equal keys straddle the partition boundaries here: worker 0 gets `lhs[0..1]` only
+example : boundaries [(0, [5]), (5, [])] [(0, [7]), (5, [0]), (7, [])] 3 = [(0, 0), (1, 0), (2, 1), (2, 3)] := by
+  decide
+example : complementAM ⟨[(0, [5]), (5, [])]⟩ = ⟨[(0, []), (5, [0])]⟩ := by decide
+example : filterAM ⟨[(0, [5]), (5, []), (7, [0, 5])]⟩ (fun v => v != 0) = ⟨[(5, []), (7, [5])]⟩ := by decide
+example : converseW ⟨[[(1, 5), (2, -3)], [], [(0, 7)]]⟩ = some ⟨[[(2, 7)], [(0, 5)], [(0, -3)]]⟩ := by decide
+
+end GraafVerif.C11
